@@ -1,6 +1,6 @@
 import FancyModel.Model.State
 import FancyModel.Model.Compile
-import FancyModel.Spec.Sem
+import FancyModel.Spec.SemK
 /-!
 # The backtracking interpreter (`vm::run`, src/vm.rs), instruction by instruction
 
@@ -39,8 +39,12 @@ def clearGroups (slots : List (Option Nat)) (sg eg : Nat) : List (Option Nat) :=
 
 /-- Anchored search of the delegated expressions at `ix`: first result of the reference semantics,
     with the delegate's own groups starting unset (as regex-automata starts them). -/
-def delegateOracle (c : Ctx) (es : List Expr) (sg eg : Nat) (ix : Nat) (saves : List Nat) : Option St :=
+def delegateOracleSpec (c : Ctx) (es : List Expr) (sg eg : Nat) (ix : Nat) (saves : List Nat) : Option St :=
   (semConcat c es ⟨ix, clearGroups (viewSlots saves) sg eg⟩).head?
+
+/-- the same, evaluated first-result (`Lemmas/SemK`: equal to `delegateOracleSpec`) -/
+def delegateOracle (c : Ctx) (es : List Expr) (sg eg : Nat) (ix : Nat) (saves : List Nat) : Option St :=
+  semKConcat c es ⟨ix, clearGroups (viewSlots saves) sg eg⟩ some
 
 /-- copy the groups that took part into the VM slots (`state.save` for each, in order) -/
 def copyGroups (r : St) (sg : Nat) : Nat → State → Option State
